@@ -966,8 +966,19 @@ class Facts:
                 self.traits[t['id']] = t
         self.reordered_calls = 0
         self.arg_permutations = None
+        self.inlined = []
         if canonical_args:
             self._canonicalise_call_arguments()
+            self._inline_new_helpers()
+
+    def _inline_new_helpers(self):
+        sp = os.path.join(os.path.dirname(os.path.abspath(__file__)), 'function_ids.json')
+        if not os.path.exists(sp):
+            return
+        with open(sp) as fh:
+            pinned = set(json.load(fh))
+        from . import inline
+        inline.run(self, pinned, self.inlined)
 
     def _canonicalise_call_arguments(self):
         """Present the arguments of every call to a product function in the parameter order frozen in rules/signatures.json (the order the
